@@ -725,6 +725,9 @@ func c11Universe(pre []mOp, op mOp) []string {
 		l = append(l, m)
 	}
 	sort.Strings(l)
+	// proposals for messages that were never stored and never can be: the remote chooses the MID, and "<MID>.b2f"
+	// of 252 bytes and more is not a file name (ENAMETOOLONG) - the look-up fails with something else than "not found"
+	l = append(l, strings.Repeat("L", 252), strings.Repeat("M", 300))
 	return l
 }
 
@@ -1205,7 +1208,7 @@ func (e *c11Env) run(sc c11Scn) {
 
 // ---------- scenarios ----------
 
-var c11Kinds = []string{"inbound-new", "inbound-existing", "inbound-two", "addout-new", "addout-existing", "setsent", "setsent-mid-in-sent",
+var c11Kinds = []string{"inbound-new", "inbound-existing", "inbound-two", "addout-new", "addout-existing", "addout-mid-in-sent", "setsent", "setsent-mid-in-sent",
 	"setunread-false", "setunread-true-after-read", "setunread-false-noop", "inbound-large"}
 
 func c11Gen(c *Ctx, kind string) c11Scn {
@@ -1280,6 +1283,13 @@ func c11Gen(c *Ctx, kind string) c11Scn {
 		elsewhere(0, 2)
 		old := msg(tgt, false)
 		pre = append(pre, mOp{K: 'A', Msgs: []mMsg{old}})
+		op = mOp{K: 'A', Msgs: []mMsg{differ(old, msg(tgt, false))}}
+	case "addout-mid-in-sent":
+		// a message that was sent is posted again (a resend): until the new copy is in the outbox the sent copy is
+		// the only one
+		elsewhere(0)
+		old := msg(tgt, false)
+		pre = append(pre, mOp{K: 'A', Msgs: []mMsg{old}}, mOp{K: 'S', Mid: tgt})
 		op = mOp{K: 'A', Msgs: []mMsg{differ(old, msg(tgt, false))}}
 	case "setsent":
 		elsewhere(0)
